@@ -44,6 +44,9 @@ def label_leaf(v):
     raise ValueError(v)
 
 
+LOW_ADDRESSES = [0, 2 * W, 4 * W, 6 * W]
+LOW_LABELS = 'low0:\n    ;\nlow1:\n    ;\nlow2:\n    ;\nlow3:'   # three ops in front of the observation slots
+LOW_WORDS = 6
 LABEL_SEGMENT = f'segment {Z}\n' + ''.join(f'lab{k}:\n    ;\n' for k in range(NLABELS))
 
 
@@ -67,7 +70,7 @@ def build_program(cases):
     """-> program text. expression i is observed by ops [i*11, i*11+11)."""
     from fjv.ref import expr as R5
     lines = [OBS]
-    consts, body, use_labels = [], [], False
+    consts, body, use_labels, use_low = [], [], False, False
     for i, c in enumerate(cases):
         params, args = [], []
         leafmap = {}
@@ -93,6 +96,11 @@ def build_program(cases):
             elif st == 'label':
                 leafmap[name] = label_leaf(v)
                 use_labels = True
+            elif st == 'barelabel':
+                # a BARE label identifier as the operand (its value is its address): low0..low3 sit at 0, 2w, 4w, 6w
+                assert v in LOW_ADDRESSES, v
+                leafmap[name] = f'low{LOW_ADDRESSES.index(v)}'
+                use_low = True
             elif st == 'rep':
                 rep_name = name
                 params.append(name)
@@ -114,6 +122,8 @@ def build_program(cases):
         else:
             body.append(('call', f'obs {text}'))
     out = lines[:1] + consts + lines[1:]  # constants must be defined before the text that uses them
+    if use_low:
+        out.append(LOW_LABELS)
     sink = []
     for b in body:
         if b[0] == 'call':
@@ -141,8 +151,9 @@ def observe(cases, workdir):
         return None, f'{type(e).__name__}: {str(e)[:300]}', text
     mem = Reader(out).memory
     vals = []
+    shift = LOW_WORDS if LOW_LABELS in text else 0
     for i in range(len(cases)):
-        base = 2 * OPS_PER_OBS * i
+        base = 2 * OPS_PER_OBS * i + shift
         sl = [mem.get(base + 2 * k + 1, 0) for k in range(SLICES)]
         sign = mem.get(base + 2 * SLICES + 1, 0)
         v = sum(s << (32 * k) for k, s in enumerate(sl))
@@ -313,6 +324,27 @@ def fam_shared(tier):
             yield case(('?:', leaf, (b, leaf, 1), leaf), f'shared ternary {b}')
 
 
+def fam_barelabel(tier):
+    """a bare label identifier directly under an operator, on either side of a number / another label / a constant: the value is
+    the label's address, whatever the operand order (labels at 0, 2w, 4w, 6w so that / % << >> ** give telling values)."""
+    from fjv.ref import expr as R5
+    nums = (1000, 3, 128, 0, 129)
+    for la in LOW_ADDRESSES:
+        for u in R5.UNARY:
+            yield Case((u, ('id', 'a')), {'a': la}, {'a': 'barelabel'}, tag=f'barelabel unary {u}')
+        for b in R5.BINARY:
+            for k in nums:
+                yield Case((b, k, ('id', 'a')), {'a': la}, {'a': 'barelabel'}, tag=f'barelabel number {b} label')
+                yield Case((b, ('id', 'a'), k), {'a': la}, {'a': 'barelabel'}, tag=f'barelabel label {b} number')
+                yield Case((b, ('id', 'c'), ('id', 'a')), {'a': la, 'c': k}, {'a': 'barelabel', 'c': 'const'}, tag=f'barelabel const {b} label')
+                yield Case((b, ('id', 'p'), ('id', 'a')), {'a': la, 'p': k}, {'a': 'barelabel', 'p': 'param'}, tag=f'barelabel param {b} label')
+            for lb in LOW_ADDRESSES:
+                yield Case((b, ('id', 'a'), ('id', 'b')), {'a': la, 'b': lb}, {'a': 'barelabel', 'b': 'barelabel'}, tag=f'barelabel label {b} label')
+        for k in (5, 0):
+            yield Case(('?:', ('id', 'a'), k, 7), {'a': la}, {'a': 'barelabel'}, tag='barelabel ternary condition')
+            yield Case(('?:', k, ('id', 'a'), 7), {'a': la}, {'a': 'barelabel'}, tag='barelabel ternary branch')
+
+
 def fam_depth2(tier):
     from fjv.ref import expr as R5
     ops = R5.BINARY
@@ -371,7 +403,7 @@ def chain_texts():
 
 
 # ------------------------------------------------------------------ workers
-FAMILIES = {'pairs': fam_pairs, 'mixes': fam_mixes, 'stages': fam_stages, 'depth2': fam_depth2, 'shared': fam_shared}
+FAMILIES = {'pairs': fam_pairs, 'mixes': fam_mixes, 'stages': fam_stages, 'depth2': fam_depth2, 'shared': fam_shared, 'barelabel': fam_barelabel}
 BATCH = 150
 
 
@@ -471,6 +503,7 @@ def make_tasks(tier, only=None):
     tasks += [('mixes', tier, p, 8) for p in range(8)]
     tasks += [('stages', tier, p, 32) for p in range(32)]
     tasks += [('shared', tier, p, 4) for p in range(4)]
+    tasks += [('barelabel', tier, p, 4) for p in range(4)]
     if tier == 'thorough':
         tasks += [('depth2', tier, p, 16) for p in range(16)]
     if only:
